@@ -277,10 +277,72 @@ def check(ctx, prog, stats, samples):
         samples.append({"defs": defs, "call": prog["calls"][0]})
 
 
+def directed_subclass_origins(ctx, stats):
+    """parametrised generics whose origin is a CONCRETE proper subclass of the annotation's origin (user subclasses of
+    list / dict, collections.OrderedDict / defaultdict under dict) -- outside the generated worlds, whose generic origins
+    are unrelated builtins.  Property oracle only (no model): the documented rule -- same-or-subclass origin,
+    argument-wise subtyping, most specific type[...] first, object last -- read directly on Python classes."""
+    import collections as C
+    from ovld import Ovld as _Ovld
+
+    class MyList(list):
+        pass
+
+    class MyList2(MyList):
+        pass
+
+    class MyDict(dict):
+        pass
+
+    def ref(x, t):
+        ox, ax = getattr(x, "__origin__", x), getattr(x, "__args__", ())
+        ot, at = getattr(t, "__origin__", t), getattr(t, "__args__", ())
+        if not at:
+            return issubclass(ox, ot)
+        return issubclass(ox, ot) and len(ax) == len(at) and all(ref(a, b) for a, b in zip(ax, at))
+
+    families = [
+        ([list[int], list[object], list, object], [list, MyList, MyList2], [(int,), (bool,), (str,), (object,)]),
+        ([dict[str, int], dict[str, object], dict[object, object], dict, object], [dict, MyDict, C.OrderedDict, C.defaultdict],
+         [(str, int), (str, bool), (str, str), (int, int), (object, object)]),
+    ]
+    for anns, origins, argss in families:
+        for k in range(1, len(anns) + 1):
+            for skip in range(len(anns)):
+                use = [a for i, a in enumerate(anns) if i != skip][:k] if k < len(anns) else anns
+                if object not in use:
+                    use = use + [object]
+
+                def mk(i, a):
+                    def g(t):
+                        return i
+                    g.__annotations__ = {"t": type[a]}
+                    return g
+                f = _Ovld()          # a fresh function per method set (the @ovld decorator would extend the previous `f`)
+                for i, a in enumerate(use):
+                    f.register(mk(i, a))
+                for o in origins:
+                    for args in argss:
+                        x = o[args if len(args) > 1 else args[0]]
+                        app = [i for i, a in enumerate(use) if ref(x, a)]
+                        best = [i for i in app if all(ref(use[i], use[j]) for j in app)]
+                        try:
+                            got = f(x)
+                        except Exception as e:      # noqa: BLE001
+                            got = type(e).__name__
+                        stats["evaluations"] += 1
+                        stats["directed_subclass_origin_calls"] = stats.get("directed_subclass_origin_calls", 0) + 1
+                        if len(best) == 1 and got != best[0]:
+                            ctx.violation(f"passing {x!r} to methods on type[{use!r}]: ran {got!r}, documented rule selects method {best[0]} (type[{use[best[0]]!r}])",
+                                          {"directed": "subclass_origin", "passed": repr(x), "annotations": [repr(a) for a in use]})
+                            return
+
+
 def run(ctx):
     stats = {"evaluations": 0, "hist": collections.Counter(), "distinct": set(), "kf01": 0, "programs": 0, "next_walks": 0}
     samples = []
     n = 80 if ctx.quick() else 4000
+    directed_subclass_origins(ctx, stats)
     for _ in range(n):
         prog = gen_prog(ctx.rng)
         check(ctx, prog, stats, samples)
@@ -290,14 +352,17 @@ def run(ctx):
     return {"evaluations": stats["evaluations"], "distinct_nontrivial": len(stats["distinct"]),
             "rule": "random hierarchies; 2-6 methods over 1-2 positions (a fifth of the programs: three positions with differently named, partly optional leading ones; a fifth: the type-valued parameter keyword-only), one position annotated with type[...] over classes, bare and parametrised generics (list, dict, nested to depth 2), bare type or object, the others with classes; 14 calls passing classes, bare / parametrised / nested generics (25% in typing.List / typing.Dict spelling), typing.Any and ordinary values; every case involves a type-valued position: all non-trivial; distinct by content",
             "samples": samples, "programs": stats["programs"], "outcome_histogram": dict(stats["hist"]),
-            "deviations_attributed_to_KF-01": stats["kf01"], "walks_f_next_vs_call_next": stats["next_walks"], "programs_built_after_a_same_count_swap_with_the_signature_inspected": stats.get("prehistories", 0), "traces_validated_against_impl": stats["evaluations"]}
+            "deviations_attributed_to_KF-01": stats["kf01"], "walks_f_next_vs_call_next": stats["next_walks"], "directed_calls_generic_with_concrete_subclass_origin": stats.get("directed_subclass_origin_calls", 0), "programs_built_after_a_same_count_swap_with_the_signature_inspected": stats.get("prehistories", 0), "traces_validated_against_impl": stats["evaluations"]}
 
 
 def replay(ctx, payload):
     """re-run the recorded program through the same comparisons; reproduced iff it raises a violation again"""
     stats = {"evaluations": 0, "hist": collections.Counter(), "distinct": set(), "kf01": 0, "programs": 0, "next_walks": 0}
     before = len(ctx.violations)
-    check(ctx, payload["case"], stats, [])
+    if payload["case"].get("directed") == "subclass_origin":
+        directed_subclass_origins(ctx, stats)
+    else:
+        check(ctx, payload["case"], stats, [])
     return len(ctx.violations) > before
 
 
